@@ -3,6 +3,7 @@ import Qentem.Model.FmtSpec
 import Qentem.Proofs.NumToStrRound
 import Qentem.Proofs.NumToStrParse
 import Qentem.Props.C10
+import Qentem.Proofs.NumToStrIdent
 /-! C11 — every finite double survives format(17 digits) then parse, bit for bit; every float
 survives 9 digits.
 
@@ -106,10 +107,8 @@ theorem roundtrip17_integers_parser (bits j : Nat)
   Qentem.Proofs.NumToStr.roundtrip17_int_parser bits j h hsmall
 
 /-- **The remaining gap of `RoundTrip17`, stated precisely.**  `FormatEqSpec` is proved, so the 17-digit text is
-the correctly rounded decimal (`format17_is_reference`; see `roundtrip17_reduced` for the reduced form).  What is
-still needed:
-* `Identifies17` — a correctly rounded 17-significant-digit decimal of a binary64 value rounds back to it
-  (the classical `10^16 > 2^53` argument; a theorem about `FmtSpec` alone, not about the code);
+the correctly rounded decimal (`format17_is_reference`), and `Identifies17` is proved below (`identifies17`).  What
+is still needed is the parser half alone (`roundtrip17_of_parser`):
 * `ParsesExactly17` — the parser returns the nearest double on those numerals; C09 proves exactness for the
   integer shape only (used above), its real path is proved safe and well-formed but its rounding
   (`real_within_one_ulp`) is open, and one ulp would not be enough for the round trip anyway. -/
@@ -172,6 +171,35 @@ theorem roundtrip17_reduced (parse : List Nat → Option Nat) (h1 : SpecIdentifi
 theorem roundtrip9_reduced (parse : List Nat → Option Nat) (h1 : SpecIdentifies9) (h2 : ParsesReference9 parse) :
     RoundTrip9 parse :=
   fun b hb => ⟨_, format9_is_reference b, by rw [h2 b hb, h1 b hb]⟩
+
+/-! ### the formatter half, proved -/
+
+/-- `spec_identifies17`: **17 correctly rounded significant digits identify a binary64 value** — for every finite
+double (subnormals, both zeros included) the reference `%.17g` text, read exactly and rounded to nearest-even, is
+the same bit pattern.  (The classical `2^53 < 10^16` argument: the decimal step at 17 digits is smaller than the
+binary step, and smaller than half of it at the bottom of a binade.)  About the reference only. -/
+theorem spec_identifies17 : SpecIdentifies17 :=
+  fun b hb => Qentem.Proofs.Ident.spec_identifies17 b hb.1 hb.2
+
+/-- `spec_identifies9`: 9 digits identify a binary32 value (`2^24 < 10^8`) -/
+theorem spec_identifies9 : SpecIdentifies9 :=
+  fun b hb => Qentem.Proofs.Ident.spec_identifies9 b hb.1 hb.2
+
+/-- `identifies17`: **the formatter half of C11 holds**: for every finite double `NumberToString` with 17
+significant digits (as modelled) raises no fault and prints a text whose exact decimal value rounds
+(nearest, ties to even) to the original bits.  `format_eq_spec` (text = reference) + `spec_identifies17`. -/
+theorem identifies17 : Identifies17 := identifies17_of_spec spec_identifies17
+
+/-- `identifies9`: the same for floats with 9 digits -/
+theorem identifies9 : Identifies9 := identifies9_of_spec spec_identifies9
+
+/-- `roundtrip17_of_parser`: **C11 for any parser that rounds correctly**: the only hypothesis left is about the
+parser (`ParsesExactly17`: on the texts the formatter emits it returns the nearest double). -/
+theorem roundtrip17_of_parser (parse : List Nat → Option Nat) (hp : ParsesExactly17 parse) : RoundTrip17 parse :=
+  roundtrip17_of_halves parse identifies17 hp
+
+theorem roundtrip9_of_parser (parse : List Nat → Option Nat) (hp : ParsesExactly9 parse) : RoundTrip9 parse :=
+  roundtrip9_of_halves parse identifies9 hp
 
 /-- non-vacuity: 3.0 and -(2^53 - 1) satisfy the hypotheses -/
 example : Qentem.Proofs.NumToStr.IntValued64 ((0x4008000000000000 / 2 ^ 52) % 2 ^ 11) (0x4008000000000000 % 2 ^ 52) 51 := by
